@@ -80,6 +80,8 @@ package routing
 //@ loop 1 invariant -1 <= rangeindex && rangeindex < len(routes) && len(kept) <= rangeindex + 1
 //@ loop 1 invariant forall j in 0..rangeindex+1: routes[j].OriginAgent == t.localID ==> exists i in 0..len(kept): kept[i] == routes[j]
 //@ note per key: every locally originated route of the key is in the kept list (never removed by cleanup)
+//@ at call builtin.delete assert $1 == key && len(kept) == 0 && forall j in 0..len(routes): routes[j].OriginAgent != t.localID
+//@ note a key is dropped from the table only when none of its routes is locally originated
 
 // ======== C09 / C10: domain, forward-key and agent tables (same representation: per key, sorted by metric) ========
 
@@ -285,3 +287,37 @@ package routing
 //@ note BOUNDED (k = 4): the three clauses above are the instances for the first four entries of 'a list that was sorted by metric when the lock was taken is still sorted after the removal'. The general quantified clause is true of this code but is not discharged: the solvers' e-matching does not see through the index arithmetic of the in-place append (shift by one) to instantiate the sortedness hypothesis. Not counted as a proof of order preservation for longer lists.
 //@ ensures[C10] !result && network != nil ==> forall j in 0..len(t.routes[k]): t.routes[k][j].OriginAgent != originAgent
 //@ note C08: lookups return the first entry of a prefix's list, so every mutator must leave the list sorted by metric; removal is order-preserving
+
+// ---- C10: stale-route cleanup of the domain, port-forward and agent tables keeps every locally originated route ----
+// (same shape as (*Table).CleanupStaleRoutes: per key, each local route of the key is in the list that is kept, and a
+// key is dropped only when it holds no local route)
+
+//@ func cleanupStaleRoutesInMap
+//@ prop C10
+//@ check bounds
+//@ modifies *
+//@ loop 1 invariant -1 <= rangeindex && rangeindex < len(routes) && len(kept) <= rangeindex + 1
+//@ loop 1 invariant forall j in 0..rangeindex+1: routes[j].OriginAgent == localID ==> exists i in 0..len(kept): kept[i] == routes[j]
+//@ at call builtin.delete assert $1 == key && len(kept) == 0 && forall j in 0..len(routes): routes[j].OriginAgent != localID
+
+//@ func (*DomainTable).CleanupStaleRoutes
+//@ prop C10
+//@ check lockset
+//@ modifies *
+//@ at call cleanupStaleRoutesInMap assert $1 == t.localID
+
+//@ func (*ForwardTable).CleanupStaleRoutes
+//@ prop C10
+//@ check lockset bounds
+//@ modifies *
+//@ loop 1 invariant -1 <= rangeindex && rangeindex < len(routes) && len(kept) <= rangeindex + 1
+//@ loop 1 invariant forall j in 0..rangeindex+1: routes[j].OriginAgent == t.localID ==> exists i in 0..len(kept): kept[i] == routes[j]
+//@ at call builtin.delete assert $1 == key && len(kept) == 0 && forall j in 0..len(routes): routes[j].OriginAgent != t.localID
+
+//@ func (*AgentTable).CleanupStaleRoutes
+//@ prop C10
+//@ check lockset bounds
+//@ modifies *
+//@ loop 1 invariant -1 <= rangeindex && rangeindex < len(routes) && len(kept) <= rangeindex + 1
+//@ loop 1 invariant forall j in 0..rangeindex+1: routes[j].OriginAgent == t.localID ==> exists i in 0..len(kept): kept[i] == routes[j]
+//@ at call builtin.delete assert $1 == agentID && len(kept) == 0 && forall j in 0..len(routes): routes[j].OriginAgent != t.localID
